@@ -9,7 +9,7 @@ from hypothesis import strategies as st
 from pbt import strategies as S
 from pbt.common import Stats, Sub, Violation
 from pbt.model import Model
-from pbt.sut import curies, mk_converter
+from pbt.sut import mk_incremental_queried, query_everything, curies, mk_converter
 
 PROPERTY_ID = "C08"
 RULE = (
@@ -161,10 +161,9 @@ def _check_one(c, d, fname, x, has_pt, unchanged, stats, unit):
         stats.cls("success-path")
 
 
-def check(case, stats: Stats) -> None:
+def _check_on(c, case, stats: Stats) -> None:
     spec = case["spec"]
     recs, d = spec["records"], spec["delimiter"]
-    c = mk_converter(spec)
     stats.cls("converters")
     for x in case["strings"]:
         if d not in x:
@@ -182,6 +181,20 @@ def check(case, stats: Stats) -> None:
             _check_one(c, d, fname, (p, i), False, None, stats, {"records": recs, "delimiter": d, "f": fname, "x": [p, i]})
 
 
+
+def check(case, stats: Stats) -> None:
+    spec = case["spec"]
+    _check_on(mk_converter(spec), case, stats)
+    # same laws on a converter grown record by record / synonym by synonym with all queries issued after every mutation
+    n = len(spec["records"])
+    inc = mk_incremental_queried(spec, list(reversed(range(n))), lambda c: query_everything(c, case["strings"], case["pairs"]))
+    try:
+        _check_on(inc, case, Stats())
+    except Violation as v:
+        v.message = "[converter built incrementally with interleaved queries] " + v.message
+        raise
+
+
 SUBS = [
     Sub(
         name="modes",
@@ -191,3 +204,7 @@ SUBS = [
         required_classes=("delimiter-free-input", "empty-input", "success-path", "nt:failure-path:expand", "nt:failure-path:standardize_curie"),
     )
 ]
+
+from pbt.fuzzstage import atheris_sub  # noqa: E402
+
+SUBS.append(atheris_sub("C08", SUBS[0].check))
